@@ -194,14 +194,14 @@ Proof.
     + inversion H; subst; apply wframe_refl.
 Qed.
 
-Definition admit_status_ok (x : status) : Prop :=
+Definition admission_status_ok (x : status) : Prop :=
   x = Accepted \/ x = Rejected TooHeavy \/ x = Rejected NoSpace.
 
-Lemma admit_wframe : forall cfg orc k id h w s r s' vs,
-  admit cfg orc k id h w s = (r, s', vs) ->
-  wframe s s' /\ (forall x, r = AdStatus x -> admit_status_ok x).
+Lemma admission_wframe : forall cfg orc k id h w s r s' vs,
+  admission cfg orc k id h w s = (r, s', vs) ->
+  wframe s s' /\ (forall x, r = AdStatus x -> admission_status_ok x).
 Proof.
-  intros cfg orc k id h w s r s' vs H. unfold admit in H. unfold admit_status_ok.
+  intros cfg orc k id h w s r s' vs H. unfold admission in H. unfold admission_status_ok.
   destruct (c_max cfg <? w) eqn:E0.
   { inversion H; subst. split; [apply wframe_refl|]. intros x Hx; inversion Hx; subst; auto. }
   destruct (w <=? c_max cfg - used s) eqn:E1.
@@ -495,8 +495,8 @@ Proof.
   - split; [intros _|intros Hn; apply amem_false_iff in Hn; congruence].
     cbn [fst]; sred. rewrite alookup_aset_eq. repeat split.
   - split; [intros Hn; apply amem_false_iff in Em; contradiction|intros _].
-    destruct (admit cfg orc k id h w (set_queue s q)) as [[r s1] vs] eqn:Ead.
-    apply admit_wframe in Ead as ((Hn & Hacks & _) & Hst). sred.
+    destruct (admission cfg orc k id h w (set_queue s q)) as [[r s1] vs] eqn:Ead.
+    apply admission_wframe in Ead as ((Hn & Hacks & _) & Hst). sred.
     destruct r as [x|site|why].
     + destruct x as [| |rr|]; cbn [fst]; sred; rewrite alookup_aset_eq; try discriminate.
       intros Heq. injection Heq as Heq. subst rr.
@@ -506,8 +506,8 @@ Proof.
   - split; [intros _|intros Hn; apply amem_false_iff in Hn; congruence].
     cbn [fst]; sred. rewrite alookup_aset_eq. repeat split.
   - split; [intros Hn; apply amem_false_iff in Em; contradiction|intros _].
-    destruct (admit cfg orc k id h w (set_queue s q)) as [[r s1] vs] eqn:Ead.
-    apply admit_wframe in Ead as ((Hn & Hacks & _) & Hst). sred.
+    destruct (admission cfg orc k id h w (set_queue s q)) as [[r s1] vs] eqn:Ead.
+    apply admission_wframe in Ead as ((Hn & Hacks & _) & Hst). sred.
     destruct r as [x|site|why].
     + destruct x as [| |rr|].
       * cbn [fst]; sred; rewrite alookup_aset_eq; discriminate.
@@ -542,16 +542,16 @@ Proof.
   destruct c as [k v id h w|k v id h w ttl|k0|id w|]; try (intros _; exact I); sred;
     destruct (amem k (store s)) eqn:Em.
   - cbn [fst]; sred. rewrite alookup_aset_eq. discriminate.
-  - destruct (admit cfg orc k id h w (set_queue s q)) as [[r s1] vs] eqn:Ead.
-    apply admit_wframe in Ead as ((Hn & Hacks & _) & Hst). sred.
+  - destruct (admission cfg orc k id h w (set_queue s q)) as [[r s1] vs] eqn:Ead.
+    apply admission_wframe in Ead as ((Hn & Hacks & _) & Hst). sred.
     destruct r as [x|site|why].
     + destruct x as [| |rr|]; cbn [fst]; sred; rewrite alookup_aset_eq; try discriminate.
       intros _. rewrite alookup_aset_eq. reflexivity.
     + cbn [fst]; sred. rewrite Hacks, Ha. discriminate.
     + cbn [fst]. rewrite Ha. discriminate.
   - cbn [fst]; sred. rewrite alookup_aset_eq. discriminate.
-  - destruct (admit cfg orc k id h w (set_queue s q)) as [[r s1] vs] eqn:Ead.
-    apply admit_wframe in Ead as ((Hn & Hacks & _) & Hst). sred.
+  - destruct (admission cfg orc k id h w (set_queue s q)) as [[r s1] vs] eqn:Ead.
+    apply admission_wframe in Ead as ((Hn & Hacks & _) & Hst). sred.
     destruct r as [x|site|why].
     + destruct x as [| |rr|].
       * cbn [fst]; sred; rewrite alookup_aset_eq; discriminate.
@@ -982,14 +982,14 @@ Proof.
   destruct (queue s) as [|[c a] q]; [inversion H; subst; exact Hsame|].
   cbv zeta in H.
   assert (Hput : forall k0 id h w r s1 vs, amem k0 (store s) = false ->
-            admit cfg orc k0 id h w (set_queue s q) = (r, s1, vs) ->
+            admission cfg orc k0 id h w (set_queue s q) = (r, s1, vs) ->
             k <> k0 /\ store_shrinks s s1).
   { intros k0 id h w r s1 vs Hm Had. split.
     - intros ->. apply amem_false_iff in Hm. congruence.
-    - apply admit_wframe in Had as ((_ & _ & _ & _ & Hsh) & _). intros k1. apply (Hsh k1). }
+    - apply admission_wframe in Had as ((_ & _ & _ & _ & Hsh) & _). intros k1. apply (Hsh k1). }
   destruct c as [k0 v id h w|k0 v id h w ttl|k0|id w|]; sred.
   - destruct (amem k0 (store s)) eqn:Em; [inversion H; subst; sred; exact Hsame|].
-    destruct (admit cfg orc k0 id h w (set_queue s q)) as [[r s1] vs] eqn:Ead.
+    destruct (admission cfg orc k0 id h w (set_queue s q)) as [[r s1] vs] eqn:Ead.
     destruct (Hput _ _ _ _ _ _ _ Em Ead) as (Hne & Hsh).
     pose proof (hid_shrinks _ _ _ _ Hl Hs Hsh) as Hh1.
     destruct r as [x|site|why].
@@ -998,7 +998,7 @@ Proof.
     + inversion H; subst; exact Hh1.
     + inversion H; subst; exact Hsame.
   - destruct (amem k0 (store s)) eqn:Em; [inversion H; subst; sred; exact Hsame|].
-    destruct (admit cfg orc k0 id h w (set_queue s q)) as [[r s1] vs] eqn:Ead.
+    destruct (admission cfg orc k0 id h w (set_queue s q)) as [[r s1] vs] eqn:Ead.
     destruct (Hput _ _ _ _ _ _ _ Em Ead) as (Hne & Hsh).
     pose proof (hid_shrinks _ _ _ _ Hl Hs Hsh) as Hh1.
     destruct r as [x|site|why].
